@@ -9,6 +9,7 @@
   `TieVec.abs` (std strategy), for race the caller's waker is handed straight to the children (direct strategy).
 -/
 import FcGen.KSrcFam
+import FcProps.KTieCore
 import FcProps.KTieStd
 import FcProps.KTiePS
 import FcProps.KTieIdx
@@ -16,39 +17,6 @@ import Fc.Families
 
 namespace Fc
 open Rs Src
-
-/-- what the crate stores of a fixed-children combinator, as the model sees it -/
-structure FCore where
-  mode : Mode
-  cap : Nat
-  bits : Nat → Bool
-  count : Nat
-  parent : Option Nat
-  n : Nat
-  st : Nat → PS
-  cnt : Nat
-  off : Nat
-
-def fcore (e : Eng Fix) : FCore :=
-  { mode := e.w.mode, cap := e.w.cap, bits := e.w.bits, count := e.w.count, parent := e.w.parent,
-    n := e.s.n, st := e.s.st, cnt := e.s.cnt, off := e.s.off }
-
-/-- the model outcome a returned `Poll<Option<Item>>` stands for -/
-def outcomeOfStream : Rs.Poll (Option Nat) → Outcome
-  | .pending => .pending
-  | .ready none => .none
-  | .ready (some v) => .some 0 [v]
-
-/-- the model outcome a returned `Poll<Output>` of a race stands for -/
-def outcomeOfRace : Rs.Poll Nat → Outcome
-  | .pending => .pending
-  | .ready v => .ready true [v]
-
-def StreamStepsF (w : World) : Prop :=
-  ∀ c st, st ∈ w.scripts c → st.res = .pend ∨ st.res = .fin ∨ ∃ v, st.res = .item v
-
-def FutStepsF (w : World) : Prop :=
-  ∀ c st, st ∈ w.scripts c → st.res = .pend ∨ ∃ ok v, st.res = .ready ok v
 
 namespace TieMergeV
 open MergeV
